@@ -8,6 +8,7 @@ import (
 	"os"
 	"runtime"
 	"runtime/debug"
+	"sort"
 	"strconv"
 	"strings"
 	"sync"
@@ -377,6 +378,127 @@ func c14ExhGraph(n int, gi int64, layout int) *c14Graph {
 		}
 		g.nodes = append(g.nodes, nd)
 	}
+	g.finish()
+	return g
+}
+
+// c14BigGraph builds member number v of the big-relation family (independent of VERIF_SEED):
+// a nested hierarchy (network -> route_master -> route -> sub-route, 2..4 levels, branching 2
+// or 4, plus shared children) in which every relation that has children carries `members`
+// members in total over its 1 or 3 versions — mostly node / way members, the few relation
+// members at arbitrary positions and in arbitrary id order — with `members` around the powers
+// of two an implementation might switch strategy at. The truth is the same as ever: the
+// relation members of any version.
+func c14BigGraph(v int) *c14Graph {
+	sizes := []int{100, 127, 128, 129, 200, 255, 256, 257, 400}
+	members := sizes[v%len(sizes)]
+	v /= len(sizes)
+	levels := 2 + v%3
+	v /= 3
+	idmode := v % 3
+	v /= 3
+	nver := []int{1, 3}[v%2]
+	v /= 2
+	branch := []int{2, 4}[v%2]
+
+	st := uint64(members)*0x9E3779B97F4A7C15 ^ uint64(levels*131+idmode*17+nver*5+branch)
+	rnd := func(n int) int {
+		st ^= st << 13
+		st ^= st >> 7
+		st ^= st << 17
+		return int(st % uint64(n))
+	}
+	// the hierarchy, breadth first
+	type tn struct {
+		level    int
+		children []int
+	}
+	nodes := []tn{{level: 0}}
+	for i := 0; i < len(nodes); i++ {
+		if nodes[i].level == levels-1 {
+			continue
+		}
+		for c := 0; c < branch; c++ {
+			nodes = append(nodes, tn{level: nodes[i].level + 1})
+			nodes[i].children = append(nodes[i].children, len(nodes)-1)
+		}
+	}
+	n := len(nodes)
+	for i := range nodes { // shared children: a reference to some relation further down
+		if len(nodes[i].children) > 0 && rnd(2) == 0 {
+			for try := 0; try < 8; try++ {
+				j := rnd(n)
+				if nodes[j].level > nodes[i].level {
+					nodes[i].children = append(nodes[i].children, j)
+					break
+				}
+			}
+		}
+	}
+	idOf := func(i int) osm.RelationID {
+		switch idmode {
+		case 0:
+			return osm.RelationID(1000 + i) // parents have the smaller ids
+		case 1:
+			return osm.RelationID(1000 + n - i) // children have the smaller ids
+		}
+		return osm.RelationID(1000 + (i*7919+13)%10007) // scattered
+	}
+	kinds := []string{"network", "route_master", "route", "route"}
+	g := &c14Graph{shape: "big"}
+	for i, t := range nodes {
+		nd := c14Node{id: idOf(i)}
+		if len(t.children) == 0 {
+			nd.versions = []osm.Members{{{Type: osm.TypeWay, Ref: int64(idOf(i))}, {Type: osm.TypeWay, Ref: int64(5000 + i)}}}
+			nd.tags = []osm.Tags{{{Key: "type", Value: "route"}}}
+			g.nodes = append(g.nodes, nd)
+			continue
+		}
+		// the relation members, in arbitrary order, one of them repeated when there are versions
+		rel := append([]int(nil), t.children...)
+		for a := len(rel) - 1; a > 0; a-- {
+			b := rnd(a + 1)
+			rel[a], rel[b] = rel[b], rel[a]
+		}
+		if nver > 1 {
+			rel = append(rel, rel[rnd(len(rel))])
+		}
+		all := make(osm.Members, 0, members)
+		for k := 0; k < members-len(rel); k++ {
+			ref := int64(20000 + rnd(5000))
+			if k%9 == 0 {
+				ref = int64(idOf(rnd(n))) // a way / node numbered like a relation
+			}
+			t := osm.TypeWay
+			if k%4 == 3 {
+				t = osm.TypeNode
+			}
+			all = append(all, osm.Member{Type: t, Ref: ref, Role: []string{"", "forward", "stop", "platform"}[k%4]})
+		}
+		for _, c := range rel { // insert at arbitrary positions
+			m := c14Rel(idOf(c))
+			if rnd(3) == 0 {
+				m = c14Decorate(m, uint64(c))
+			}
+			at := rnd(len(all) + 1)
+			all = append(all, osm.Member{})
+			copy(all[at+1:], all[at:])
+			all[at] = m
+		}
+		// cut into versions of arbitrary lengths
+		cuts := []int{0}
+		for k := 1; k < nver; k++ {
+			cuts = append(cuts, rnd(len(all)+1))
+		}
+		cuts = append(cuts, len(all))
+		sort.Ints(cuts)
+		for k := 0; k+1 < len(cuts); k++ {
+			nd.versions = append(nd.versions, all[cuts[k]:cuts[k+1]:cuts[k+1]])
+			nd.tags = append(nd.tags, osm.Tags{{Key: "type", Value: kinds[t.level]}, {Key: "ref", Value: strconv.Itoa(i)}})
+		}
+		g.nodes = append(g.nodes, nd)
+	}
+	g.label = fmt.Sprintf("big{members=%d levels=%d branch=%d ids=%s versions=%d}", members, levels, branch, []string{"parents-smaller", "children-smaller", "scattered"}[idmode], nver)
 	g.finish()
 	return g
 }
@@ -961,7 +1083,11 @@ func (x *c14X) violate(class string, g *c14Graph, format string, a ...any) {
 		return
 	}
 	x.keys[key] = true
-	x.res.Violate(key, fmt.Sprintf(format, a...), map[string]any{"graph": g.desc, "shape": g.shape})
+	desc := g.desc
+	if g.label != "" && len(desc) > 6000 {
+		desc = desc[:6000] + " ..."
+	}
+	x.res.Violate(key, fmt.Sprintf(format, a...), map[string]any{"graph": desc, "shape": g.shape})
 }
 
 func (x *c14X) eval(sig string) {
@@ -1937,6 +2063,31 @@ func c14Exec(c fw.Case) *fw.Result {
 			x.multi(fresh(), "free")
 			res.Add("groups_of_concurrent_orderings", 1)
 		}
+	case "big":
+		for v := from; v < from+count; v++ {
+			g := c14BigGraph(int(v))
+			res.Add("graphs_big", 1)
+			res.SetMax("relations_per_graph", int64(len(g.nodes)))
+			ids := g.allIDs() // breadth first: parents before children
+			rev := append([]osm.RelationID(nil), ids...)
+			for a, b := 0, len(rev)-1; a < b; a, b = a+1, b-1 {
+				rev[a], rev[b] = rev[b], rev[a]
+			}
+			plan := func(k int) int { return c14PlanFor(uint64(v)*29+uint64(k)) % 7 }
+			lists := [][]osm.RelationID{{ids[0]}, ids, rev, {ids[0], ids[len(ids)/2], ids[1]}, {ids[1], ids[0]}}
+			for li, req := range lists {
+				out := x.run(&c14Scn{g: g, req: req, plan: plan(li)})
+				if li == 0 {
+					x.sample(g, req, c14Out{emitted: out.emitted[:min(len(out.emitted), 8)], dsCalls: out.dsCalls})
+				}
+			}
+			x.run(&c14Scn{g: g, req: lists[0], lib: 1 + int(v)%4, plan: plan(5)})
+			x.run(&c14Scn{g: g, req: ids, lib: 1 + int(v+1)%4, plan: plan(6)})
+			x.run(&c14Scn{g: g, req: lists[0], stop: "close", j: 1, plan: plan(7)})
+			x.run(&c14Scn{g: g, req: ids, stop: "cancel-nonext", j: 2, alsoClose: v%2 == 0, plan: plan(8)})
+			x.run(&c14Scn{g: g, req: lists[0], stop: "dscancel", j: 3, alsoClose: v%2 == 1, plan: plan(9)})
+			x.checkLibInputs(g)
+		}
 	case "deep":
 		for v := from; v < from+count; v++ {
 			g := c14DeepGraph(int(v))
@@ -2100,6 +2251,16 @@ func c14Cases(tier string, seed uint64) []fw.Case {
 	} else {
 		multi("multi-rand", 0, 150, 25, "", "c14multi")
 	}
+	big := func(batch int, variant string) {
+		for from := 0; from < 9*3*3*2*2; from += batch {
+			cs = append(cs, fw.Case{Kind: "big", Variant: variant, Seed: 0,
+				P: map[string]int64{"from": int64(from), "count": int64(batch), "procs": []int64{0, 1, 2, 4}[(from/batch)%4]}})
+		}
+	}
+	big(27, "") // 9 member counts x 3 depths x 3 id orders x 1|3 versions x branching 2|4
+	if tier == "thorough" {
+		big(54, "race")
+	}
 	deep(11*8*4, 22, "") // 11 depths x 8 closings x plain/wide ids x plain/annotated members
 	all := []int{0, 1, 2, 3}
 	exh(1, 8, "", all)
@@ -2131,6 +2292,7 @@ func init() {
 			"Deep family (seed-independent): 352 chains of depth 99..300 (straddling the library's preallocated path capacity of 100), acyclic or closed at the bottom by a reference back to depth 0, 1, d-1, d-2, d/2, d-100 or by a 3-ring, plain / 2^40-straddling ids, plain / annotated members, with stops deep inside the recursion. " +
 			"Relation members carry annotation fields (Version, ChangesetID, Orientation, Lat/Lon, Role) in enumerated layout 1 and in 40% of the random graphs. " +
 			"Datasource dimension: besides the harness' own datasource, library-built osm.HistoryDatasources from an OSM value (versions grouped / interleaved) and from a Change value (versions spread over create/modify/delete, grouped / interleaved) for the multi-version enumerated layout, the random graphs and their stop sweeps; findings there carry the class suffix -libds; the input value must be unchanged afterwards. " +
+			"Big-relation family (seed-independent): 324 nested hierarchies (2-4 levels, branching 2|4, shared children) whose inner relations carry 100,127,128,129,200,255,256,257 or 400 members over 1|3 versions, mostly way/node members with the few relation members at arbitrary positions and in arbitrary id order, three id assignments. " +
 			"Relation versions carry tags (type=multipolygon / boundary / route / site / empty / none, other tags) in layouts 1 and 2, 60% of the random graphs and the annotated deep chains. " +
 			"Concurrent orderings: enumerated graphs stalled inside each of their lookups while other enumerated graphs on the same ids run to completion, and groups of 2-4 random graphs with ids 1..40, interleaved deterministically through gated datasources (nest / round-robin) or free-running; each judged against its own graph, classes suffixed -concurrent. " +
 			"Schedule perturbation (Gosched / spinning / 30us sleeps in the datasource or the consumer, GOMAXPROCS 1,2,4,default) never feeds a verdict. " +
